@@ -101,6 +101,53 @@ func runC14(c *ShardCtx) {
 			runGrammar(c, g, &f)
 		}
 	}
+	// label spelling: two recovery operators whose label lists differ but look alike when written
+	// next to each other ({a, b} / {a_b}, {a_, b} / {a, _b}, {ab} / {a, b}, non-ASCII and long names);
+	// every label of both lists is thrown under either operator: recovered exactly when listed
+	{
+		lists := [][2][]string{
+			{{"a", "b"}, {"a_b"}}, {{"a_b"}, {"a", "b"}}, {{"a_", "b"}, {"a", "_b"}}, {{"ab"}, {"a", "b"}}, {{"a", "b"}, {"b", "a"}},
+			{{"\u00e9"}, {"e"}}, {{"x1", "x"}, {"x", "1x"}}, {{"a", "a_b", "b"}, {"a_a", "b_b"}},
+		}
+		for _, pr := range lists {
+			idx++
+			if !c.Mine(idx) {
+				continue
+			}
+			seen := map[string]bool{}
+			var all []string
+			for _, l := range append(append([]string{}, pr[0]...), pr[1]...) {
+				if !seen[l] && l != "1x" {
+					seen[l] = true
+					all = append(all, l)
+				}
+			}
+			if len(all) > 5 {
+				all = all[:5]
+			}
+			site := func() *peg.Expr {
+				var alts []*peg.Expr
+				for i, l := range all {
+					alts = append(alts, peg.Seq(peg.Lit(string(rune('1'+i))), peg.Throw(l)))
+				}
+				return peg.Choice(alts...)
+			}
+			fix := func(ls []string) []string {
+				var out []string
+				for _, l := range ls {
+					if l == "1x" {
+						l = "x1x"
+					}
+					out = append(out, l)
+				}
+				return out
+			}
+			body := peg.Choice(peg.Recover(peg.Seq(peg.Lit("a"), site()), peg.Lit("r"), fix(pr[0])...), peg.Recover(peg.Seq(peg.Lit("b"), site()), peg.Lit("s"), fix(pr[1])...))
+			f := *fam
+			f.inputs = peg.Inputs([]string{"a", "b", "1", "2", "3", "4", "5", "r", "s"}, 3)
+			runGrammar(c, wrap(body), &f)
+		}
+	}
 	// two recovery operators in every arrangement (see twoRecoveryFamily)
 	for _, g := range twoRecoveryFamily(c.Thorough()) {
 		idx++
